@@ -92,8 +92,11 @@ def _job(args):
     try:
         import openpyxl
         out = []
+        # every second chunk: ONE Parser for all its workbooks, each written to the SAME path in turn (a regenerated file) and announced again
+        # with set_excel_file_path; the other chunks: a new Parser and a new path per workbook
+        shared = repo.Parser() if idx % 2 else None
         for k, rec in enumerate(recs):
-            x = os.path.join(scratch, f'c18_{idx}_{k}.xlsx')
+            x = os.path.join(scratch, f'c18_{idx}_{0 if shared else k}.xlsx')
             p = os.path.join(scratch, f'c18_{idx}_{k}.py')
             wb = openpyxl.Workbook()
             wb.remove(wb.active)
@@ -106,7 +109,7 @@ def _job(args):
             wb.save(x)
             ev = {'sheets': rec['sheets'], 'titles': [], 'sizes': [], 'cells': [], 'err': ''}
             try:
-                repo.Parser().set_excel_file_path(x).write_translation(p)
+                (shared or repo.Parser()).set_excel_file_path(x).write_translation(p)
                 ex = repo.Executor().set_executed_class(class_file=p)
                 inst = ex.get_executed_class()
                 titles = inst.get_titles()
